@@ -55,9 +55,22 @@ func vfRecord(ctx context.Context, st nodeenrollment.Storage, k int, nonce, encP
 // vfSignedRequest builds a well-signed fetch request (the only thing the server checks about the signature
 // is that it is by the key named inside the bundle; forged signatures are C03).
 func vfSignedRequest(t0 time.Time, key int, nonce, encPub, wrapped []byte) *types.FetchNodeCredentialsRequest {
+	return vfSignedRequestX(t0, key, nonce, encPub, wrapped, false)
+}
+
+// vfSignedRequestX: with selfAsserted, the requester also fills the bundle fields an honest node leaves empty -
+// the "decrypted registration info" slot (with its own nonce and key, as if someone had already unwrapped it), a
+// key ID of its choosing and a previous certificate key. They are inside the signed bundle, so they are the
+// requester's own words and must authorise nothing.
+func vfSignedRequestX(t0 time.Time, key int, nonce, encPub, wrapped []byte, selfAsserted bool) *types.FetchNodeCredentialsRequest {
 	info := &types.FetchNodeCredentialsInfo{CertificatePublicKeyPkix: vf.Pkix(key), CertificatePublicKeyType: types.KEYTYPE_ED25519,
 		Nonce: nonce, EncryptionPublicKeyBytes: encPub, EncryptionPublicKeyType: types.KEYTYPE_X25519,
 		NotBefore: timestamppb.New(t0.Add(-time.Hour)), NotAfter: timestamppb.New(t0.Add(time.Hour)), WrappedRegistrationInfo: wrapped}
+	if selfAsserted {
+		info.WrappingRegistrationFlowInfo = &types.WrappingRegistrationFlowInfo{Nonce: nonce, CertificatePublicKeyPkix: vf.Pkix(key)}
+		info.Id = "an-id-the-requester-made-up"
+		info.PreviousCertificatePublicKeyPkix = vf.Pkix(5)
+	}
 	bundle, err := proto.Marshal(info)
 	if err != nil {
 		panic(err)
@@ -93,7 +106,7 @@ func VerifC01NodeLed() {
 	reqNonce := vf.Bytes("reqnonce", 32)
 	vf.Assume(len(reqNonce) == nodeenrollment.NonceSize)
 	reqEnc := vf.X25519Pub(vf.Int("reqenc", 0, 1))
-	req := vfSignedRequest(t0, reqKey, reqNonce, reqEnc, nil)
+	req := vfSignedRequestX(t0, reqKey, reqNonce, reqEnc, nil, vf.Bool("requester-fills-the-unused-bundle-fields"))
 
 	resp, err := FetchNodeCredentials(ctx, st, req)
 	vf.Assume(vf.TimeLE(vf.Now(), t0.Add(time.Second))) // clock assumption: the call is short
@@ -244,7 +257,7 @@ func VerifC01Wrapped() {
 		vfRecord(ctx, st, reqKey, vf.Bytes("recnonce", 32), vf.X25519Pub(0), 9)
 	}
 	snap := st.Snapshot()
-	req := vfSignedRequest(t0, reqKey, reqNonce, vf.X25519Pub(1), wrapped)
+	req := vfSignedRequestX(t0, reqKey, reqNonce, vf.X25519Pub(1), wrapped, vf.Bool("requester-fills-the-unused-bundle-fields"))
 	resp, err := FetchNodeCredentials(ctx, st, req, opts...)
 	vf.Assume(vf.TimeLE(vf.Now(), t0.Add(time.Second)))
 	issued := vfIssued(resp, err)
